@@ -721,6 +721,7 @@ class Interp:
                         isinstance(elt, ast.Name) and aug is None:
                     self._constant_flag(st, elt.id, returned.elts[position])
                     self._display_length(st, elt.id, returned.elts[position])
+                    self._returned_facts(st, elt.id, returned.elts[position])
             return
         if isinstance(target, ast.Starred):
             return self._store(target.value, None, st, fr, stmt, aug)
@@ -745,6 +746,7 @@ class Interp:
             if isinstance(value, (ast.Call, ast.Await)):
                 # `ok = self._helper()` where the helper, run in place, returned a constant
                 self._constant_flag(st, target.id, self._helper_returned(value, st))
+                self._returned_facts(st, target.id, self._helper_returned(value, st))
 
     @staticmethod
     def _constant_flag(st: St, name: str, value):
@@ -754,6 +756,32 @@ class Interp:
             st.facts[('truth', name)] = bool(value.value)
             st.facts[('isnone', name)] = value.value is None
             st.facts[('constflag', name)] = True
+
+    @staticmethod
+    def _returned_facts(st: St, name: str, returned):
+        """what the helper that just ran in place knew about the value it returned"""
+        if _is_fresh_empty(returned):
+            st.facts[('truth', name)] = False
+            return
+        if not isinstance(returned, ast.Name) or not st.events:
+            return
+        # the leave event of the helper is the last one before the stores of this statement
+        leave = None
+        for event in reversed(st.events[-8:]):
+            if event.kind == 'leave' and event.data.get('how') == 'helper':
+                leave = event
+                break
+        inner = leave.data.get('inner_facts') if leave is not None else None
+        if not inner:
+            return
+        local = returned.id
+        if inner.get(('isnone', local)) is not None:
+            st.facts[('isnone', name)] = inner[('isnone', local)]
+        elif any(key[0] == 'truth' and value is True and
+                 key[1].startswith('isinstance(%s,' % local) for key, value in inner.items()):
+            st.facts[('isnone', name)] = False  # an instance of something is not None
+        if inner.get(('truth', local)) is not None:
+            st.facts[('truth', name)] = inner[('truth', local)]
 
     @staticmethod
     def _display_length(st: St, name: str, value):
@@ -1832,7 +1860,7 @@ class Interp:
                             s.facts[key_] = value
                 self._emit(s, 'leave', node, fr, callee=callee, how='helper',
                            outcome=out[0], ret=out[1] if out[0] == 'return' else None,
-                           ret_fid=sub.fid, ret_bind=bindings)
+                           ret_fid=sub.fid, ret_bind=bindings, inner_facts=inner)
                 results.append((out, s))
         finally:
             self._helper_stack.pop()
@@ -2914,6 +2942,7 @@ class Interp:
             rebound = self._stable_attrs()
             args = fn.node.args
             params = {a.arg for a in args.posonlyargs + args.args + args.kwonlyargs}
+            given = set(params) | {a.arg for a in (args.vararg, args.kwarg) if a is not None}
             stores = {}
             for node in ast.walk(fn.node):
                 if isinstance(node, ast.Name) and isinstance(node.ctx, (ast.Store, ast.Del)):
@@ -2940,7 +2969,7 @@ class Interp:
                     pairs = [(t, v) for t, v in zip(target.elts, value.elts)
                              if isinstance(t, ast.Name)]
                 for t, v in pairs:
-                    if stores.get(t.id) == 1 and chain(v):
+                    if stores.get(t.id) == 1 and t.id not in given and chain(v):
                         table[t.id] = v
         self._pure[key] = ('table', table)
         return table
